@@ -22,6 +22,7 @@ import (
 	"errors"
 	"fmt"
 	"net"
+	"net/netip"
 	"net/url"
 	"slices"
 	"strings"
@@ -67,13 +68,23 @@ func ParsePublicURLWithScheme(input string, allowReserved bool, allowedSchemes .
 	if len(allowedSchemes) > 0 && !slices.Contains(allowedSchemes, parsed.Scheme) {
 		return nil, fmt.Errorf("scheme must be %s", strings.Join(allowedSchemes, " or "))
 	}
-	if net.ParseIP(parsed.Hostname()) != nil && !allowReserved {
+	if !allowReserved && isIPAddress(parsed.Hostname()) {
 		return nil, errors.New("hostname is IP")
 	}
 	if !allowReserved && isReserved(parsed) {
 		return nil, errors.New("hostname is RFC2606 reserved")
 	}
 	return parsed, nil
+}
+
+// isIPAddress returns true if the hostname is an IPv4 or IPv6 address, including IPv6 addresses with a zone (e.g. fe80::1%eth0),
+// which net.ParseIP does not recognize.
+func isIPAddress(hostname string) bool {
+	if net.ParseIP(hostname) != nil {
+		return true
+	}
+	_, err := netip.ParseAddr(hostname)
+	return err == nil
 }
 
 // isReserved returns true if URL uses any of the reserved TLDs or addresses
